@@ -155,6 +155,9 @@ static inline bool read_case_file(const std::string& path, Case& c, std::string*
   return true;
 }
 
+// free-form measured counts (oracles bump them), summed over shards by the runner
+static std::map<std::string, uint64_t> counters;
+
 // ---- context ---------------------------------------------------------------------------
 struct Ctx {
   std::string prop, driver, tier = "quick", campaign_filter, faildir = "replays", hashfile;
@@ -240,6 +243,9 @@ struct Ctx {
               (unsigned long long)kv.second, campaign_exhaustive[kv.first] ? "true" : "false");
       first = false;
     }
+    fprintf(out, "},\n \"counters\": {");
+    first = true;
+    for (auto& kv : counters) { fprintf(out, "%s\"%s\": %llu", first ? "" : ", ", json_escape(kv.first).c_str(), (unsigned long long)kv.second); first = false; }
     fprintf(out, "},\n \"notes\": {");
     first = true;
     for (auto& kv : notes) { fprintf(out, "%s\"%s\": \"%s\"", first ? "" : ", ", json_escape(kv.first).c_str(), json_escape(kv.second).c_str()); first = false; }
